@@ -1,6 +1,10 @@
 /-
-  BB.Lemmas.FrontLex — lemmas about the ordinary path of the lexer model (`BB.plainTokens`):
-  how comment stripping, parenthesis padding and chunking behave under concatenation.
+  BB.Lemmas.FrontLex — lemmas about the ordinary path of the lexer model.
+
+  `BB.plainTokens` (the scanner that keeps quoted characters whole) equals `BB.plainTokensOld`
+  (strip the comment, pad parentheses, split) on every line that has no apostrophe in front of its
+  comment (`plainTokens_eq_old`); the rest of the file is about `plainTokensOld`: how comment
+  stripping, parenthesis padding and chunking behave under concatenation.
 -/
 import BB.Lex
 namespace BB
@@ -152,11 +156,11 @@ theorem padParens_noparen (w : List Char) (h : ∀ c ∈ w, c ≠ '(' ∧ c ≠ 
 /-! ### the ordinary token list of a line -/
 
 /-- replacing one non-empty run of separators by another -/
-theorem plainTokens_sep_run (pre post s t : List Char)
+theorem plainTokensOld_sep_run (pre post s t : List Char)
     (hs : s ≠ []) (ht : t ≠ [])
     (hsa : ∀ c ∈ s, isSep c = true) (hta : ∀ c ∈ t, isSep c = true) :
-    plainTokens (pre ++ (s ++ post)) = plainTokens (pre ++ (t ++ post)) := by
-  unfold plainTokens
+    plainTokensOld (pre ++ (s ++ post)) = plainTokensOld (pre ++ (t ++ post)) := by
+  unfold plainTokensOld
   by_cases hp : '#' ∈ pre
   · rw [stripComment_append_of_mem _ _ hp, stripComment_append_of_mem _ _ hp]
   · rw [stripComment_append_of_not_mem _ _ hp, stripComment_append_of_not_mem _ _ hp,
@@ -166,45 +170,83 @@ theorem plainTokens_sep_run (pre post s t : List Char)
     rw [chunks_append_sep _ s _ hs hsa, chunks_append_sep _ t _ ht hta]
 
 /-- leading separators -/
-theorem plainTokens_sep_prefix (s a : List Char) (hsa : ∀ c ∈ s, isSep c = true) :
-    plainTokens (s ++ a) = plainTokens a := by
-  unfold plainTokens
+theorem plainTokensOld_sep_prefix (s a : List Char) (hsa : ∀ c ∈ s, isSep c = true) :
+    plainTokensOld (s ++ a) = plainTokensOld a := by
+  unfold plainTokensOld
   rw [stripComment_append_of_not_mem _ _ (hash_not_mem_of_sep s hsa), padParens_append,
     padParens_sep s hsa, chunks_sep_prefix _ _ hsa]
 
 /-- trailing separators -/
-theorem plainTokens_sep_suffix (a s : List Char) (hsa : ∀ c ∈ s, isSep c = true) :
-    plainTokens (a ++ s) = plainTokens a := by
-  unfold plainTokens
+theorem plainTokensOld_sep_suffix (a s : List Char) (hsa : ∀ c ∈ s, isSep c = true) :
+    plainTokensOld (a ++ s) = plainTokensOld a := by
+  unfold plainTokensOld
   by_cases hp : '#' ∈ a
   · rw [stripComment_append_of_mem _ _ hp]
   · rw [stripComment_append_of_not_mem _ _ hp, stripComment_of_not_mem s (hash_not_mem_of_sep s hsa),
       stripComment_of_not_mem a hp, padParens_append, padParens_sep s hsa, chunks_sep_suffix _ _ hsa]
 
 /-- a trailing comment -/
-theorem plainTokens_comment (a r : List Char) : plainTokens (a ++ '#' :: r) = plainTokens a := by
-  unfold plainTokens
+theorem plainTokensOld_comment (a r : List Char) : plainTokensOld (a ++ '#' :: r) = plainTokensOld a := by
+  unfold plainTokensOld
   rw [stripComment_hash]
+
+/-! ### the scanner and the pipeline it replaced -/
+
+theorem tokGo_eq_old (l : List Char) (h : '\'' ∉ stripComment l) :
+    tokGo 0 l = chunkGo (padParens (stripComment l)) := by
+  induction l with
+  | nil => rfl
+  | cons c cs ih =>
+    by_cases hh : c = '#'
+    · simp [tokGo, stripComment, padParens, chunkGo, hh]
+    · have hs : stripComment (c :: cs) = c :: stripComment cs := by simp [stripComment, hh]
+      rw [hs] at h ⊢
+      have hq : c ≠ '\'' := fun e => h (e ▸ List.mem_cons_self ..)
+      have ih' := ih (fun m => h (List.mem_cons_of_mem _ m))
+      by_cases hsep : isSep c = true
+      · have hp := sep_not_paren hsep
+        simp [tokGo, hh, hsep, padParens, hp, chunkGo, ih', pushChunk]
+      · by_cases hp : c = '(' ∨ c = ')'
+        · have hsp : isSep ' ' = true := by decide
+          simp [tokGo, hh, hsep, padParens, hp, chunkGo, ih', pushChunk, hsp]
+        · simp [tokGo, hh, hsep, padParens, hp, chunkGo, ih', hq]
+
+/-- a line without an apostrophe in front of its comment is lexed as before -/
+theorem plainTokens_eq_old (l : List Char) (h : '\'' ∉ stripComment l) :
+    plainTokens l = plainTokensOld l := by
+  unfold plainTokens plainTokensOld chunks
+  rw [tokGo_eq_old l h]; rfl
+
+theorem not_mem_stripComment {c : Char} (l : List Char) (h : c ∉ l) : c ∉ stripComment l := by
+  induction l with
+  | nil => simp [stripComment]
+  | cons d ds ih =>
+    by_cases hd : d = '#'
+    · simp [stripComment, hd]
+    · simp only [stripComment, hd, if_false, List.mem_cons, not_or]
+      exact ⟨fun e => h (e ▸ List.mem_cons_self ..), ih (fun m => h (List.mem_cons_of_mem _ m))⟩
 
 /-! ### source-level operands -/
 
-/-- a source-level operand / mnemonic: not empty, free of separators, parentheses and `#` -/
+/-- a source-level operand / mnemonic: not empty, free of separators, parentheses, `#` and quotes
+    (a quoted character is an operand too, and may hold any of these: Props/C11Char) -/
 def SrcWord (w : List Char) : Prop :=
-  w ≠ [] ∧ ∀ c ∈ w, isSep c = false ∧ c ≠ '(' ∧ c ≠ ')' ∧ c ≠ '#'
+  w ≠ [] ∧ ∀ c ∈ w, isSep c = false ∧ c ≠ '(' ∧ c ≠ ')' ∧ c ≠ '#' ∧ c ≠ '\''
 
 instance (w : List Char) : Decidable (SrcWord w) := by unfold SrcWord; infer_instance
 
 theorem SrcWord.sep {w : List Char} (h : SrcWord w) : ∀ c ∈ w, isSep c = false := fun c hc => (h.2 c hc).1
 theorem SrcWord.noparen {w : List Char} (h : SrcWord w) : ∀ c ∈ w, c ≠ '(' ∧ c ≠ ')' :=
   fun c hc => ⟨(h.2 c hc).2.1, (h.2 c hc).2.2.1⟩
-theorem SrcWord.nohash {w : List Char} (h : SrcWord w) : '#' ∉ w := fun m => (h.2 _ m).2.2.2 rfl
+theorem SrcWord.nohash {w : List Char} (h : SrcWord w) : '#' ∉ w := fun m => (h.2 _ m).2.2.2.1 rfl
+theorem SrcWord.noquote {w : List Char} (h : SrcWord w) : '\'' ∉ w := fun m => (h.2 _ m).2.2.2.2 rfl
 
 /-- the tokens of `m rd, off(base)` -/
-theorem plainTokens_paren_form (m rd off base : List Char)
+theorem plainTokensOld_paren_form (m rd off base : List Char)
     (hm : SrcWord m) (hrd : SrcWord rd) (hoff : SrcWord off) (hbase : SrcWord base) :
-    plainTokens (m ++ ([' '] ++ (rd ++ ([',', ' '] ++ (off ++ (['('] ++ (base ++ [')']))))))) =
+    plainTokensOld (m ++ ([' '] ++ (rd ++ ([',', ' '] ++ (off ++ (['('] ++ (base ++ [')']))))))) =
       [m, rd, off, ['('], base, [')']] := by
-  unfold plainTokens
+  unfold plainTokensOld
   rw [stripComment_of_not_mem]
   · simp only [padParens_append, padParens_noparen _ hm.noparen, padParens_noparen _ hrd.noparen,
       padParens_noparen _ hoff.noparen, padParens_noparen _ hbase.noparen]
@@ -220,10 +262,10 @@ theorem plainTokens_paren_form (m rd off base : List Char)
   · simp [hm.nohash, hrd.nohash, hoff.nohash, hbase.nohash]
 
 /-- the tokens of `m a, b, c` -/
-theorem plainTokens_flat_form (m a b c : List Char)
+theorem plainTokensOld_flat_form (m a b c : List Char)
     (hm : SrcWord m) (ha : SrcWord a) (hb : SrcWord b) (hc : SrcWord c) :
-    plainTokens (m ++ ([' '] ++ (a ++ ([',', ' '] ++ (b ++ ([',', ' '] ++ c)))))) = [m, a, b, c] := by
-  unfold plainTokens
+    plainTokensOld (m ++ ([' '] ++ (a ++ ([',', ' '] ++ (b ++ ([',', ' '] ++ c)))))) = [m, a, b, c] := by
+  unfold plainTokensOld
   rw [stripComment_of_not_mem]
   · simp only [padParens_append, padParens_noparen _ hm.noparen, padParens_noparen _ ha.noparen,
       padParens_noparen _ hb.noparen, padParens_noparen _ hc.noparen]
